@@ -172,6 +172,14 @@ class C08Run(object):
     def arm_ops(self):
         w = self.world
         sim = w.sim
+
+        def read_pidfile():
+            try:
+                self.pid_seen = open(self.pidpath).read().strip()
+            except OSError:
+                self.pid_seen = '<no file>'
+        if self.cfg.get('pidfile', True):
+            sim.after_steps(1, read_pidfile, 'probe')
         for i, op in enumerate(self.case['ops']):
             def fire(op=op, i=i):
                 self.exec_op(op, i)
@@ -296,13 +304,16 @@ class C08Run(object):
                       exc=type(self.exc).__name__,
                       pidfile=(pre or {}).get('kind'))
             return
-        if pre is not None:
-            self.count(self.probes, 'pidfile_' + pre['kind'])
-            if getattr(self, 'pid_seen', None) is not None and \
-                    self.pid_seen != str(me):
+        if self.cfg.get('pidfile', True):
+            kind = pre['kind'] if pre is not None else 'absent'
+            self.count(self.probes, 'pidfile_' + kind)
+            if getattr(self, 'pid_seen', None) is None:
+                self.count(self.probes, 'pidfile_not_observed')
+            elif self.pid_seen != str(me):
                 self.viol('pidfile_not_taken_over', 'pid file content %r was '
                           'not replaced by the daemon pid: %r'
-                          % (pre['text'], self.pid_seen), kind=pre['kind'])
+                          % ((pre or {}).get('text'), self.pid_seen),
+                          kind=kind)
         if self.trigger_t is None:
             # no shutdown was requested: the run ends at the cap
             self.aborted = 'no_shutdown'
